@@ -28,7 +28,9 @@ MANIFEST = dict(
          "with any number of fields, any number of them nested (each with its own container dimension), in any position: "
          "the jobs are the n-ary lexicographic product / positional pairing of the fields' elements_at_depth lists; "
          "C04_shape_rect — on rectangular values input_shape is the dimension vector; C04_exec_spec_sound(_n) — the "
-         "boolean checks evaluated on the cases decide the Prop specs. "
+         "boolean checks evaluated on the cases decide the Prop specs; C04_full_tuples — a one-field splitter over a list "
+         "whose inner containers are any mix of lists and tuples (flatten opens both, input_shape only lists) still "
+         "runs exactly the elements at depth n, both kinds opened. "
          "The model is tied to the code on every run by running State.prepare_states (states_ind, states_val) and "
          "Task.split(..., container_ndim=...) through Submitter(worker='debug') on enumerated/sampled nested lists and "
          "evaluating model and executable spec on the same cases inside Coq (vm_compute).",
@@ -43,8 +45,9 @@ TIE_NAME = "Model.Nested.split1/split2 vs State.prepare_states (states_ind, stat
 TRUSTED = [
     "Model/Nested.v: hand-written model of input_shape, flatten, _single_op_splits, _processing_terms + one binary "
     "step of State.splits (itertools.product / zip after the shape test), iter_splits, map_splits",
-    "modelled, not verified: values are Python ints and lists only (tuples, which flatten opens but input_shape does "
-    "not, are outside the model); itertools iterators are eager lists; states from upstream nodes (inner_inputs) and "
+    "modelled, not verified: values are Python ints and lists (tuples, which flatten opens but input_shape does "
+    "not, are modelled for the one-field splitter only — tvalue/tsplit1 — and observed at State level; a top-level "
+    "tuple, which ensure_list would wrap, cannot come from Task.split and is not modelled); itertools iterators are eager lists; states from upstream nodes (inner_inputs) and "
     "mixed outer/inner nestings of more than two fields belong to C01/C03; flat n-ary splitters are modelled as the "
     "left fold splitter2rpn produces (index tuples kept flattened) and observed at State level only",
 ]
@@ -54,7 +57,8 @@ RULE = ("nested lists of uniform depth 1-3 with inner lengths 0-3 (all of depth 
         "0-2 enumerated, depth 3 with lengths up to 3 sampled: rectangular, one-list-perturbed and fully random ragged), "
         "a few mixed-depth values, x every container dimension 1..depth (and depth+1, and the default), alone and as the left/right operand of an outer and of an inner splitter whose other "
         "operand is a plain list or a second nested field, and at a random position of a flat 3-4 field outer / inner "
-        "splitter (State level); non-trivial = distinct case with container dimension >= 2 "
+        "splitter (State level); depth 2-3 values with random inner lists turned into tuples, one field (State level); "
+        "non-trivial = distinct case with container dimension >= 2 "
         "and >= 2 elements at that depth")
 
 IMPORTS = ["Model.Nested", "Spec.Nested"]
@@ -168,6 +172,48 @@ def rectangular(n, v):
     return all(rectangular(n - 1, c) for c in v) and all(dims(n - 1, c) == dims(n - 1, v[0]) for c in v)
 
 
+# ---------------------------------------------------------------- values holding tuples
+def tuplify(rng, v, top=True):
+    """Turn some inner lists (never the split value itself) into tuples."""
+    if not isinstance(v, list):
+        return v
+    ch = [tuplify(rng, x, False) for x in v]
+    return tuple(ch) if (not top and rng.random() < 0.5) else ch
+
+
+def t_json(v):
+    if isinstance(v, tuple):
+        return {"t": [t_json(x) for x in v]}
+    if isinstance(v, list):
+        return [t_json(x) for x in v]
+    return v
+
+
+def t_unjson(v):
+    if isinstance(v, dict):
+        return tuple(t_unjson(x) for x in v["t"])
+    if isinstance(v, list):
+        return [t_unjson(x) for x in v]
+    return v
+
+
+def telements(n, v):
+    if n == 0 or not isinstance(v, (list, tuple)):
+        return [v]
+    out = []
+    for x in v:
+        out += telements(n - 1, x)
+    return out
+
+
+def enc_tvalue(v):
+    if isinstance(v, tuple):
+        return "(TTup %s)" % coqio.lst([enc_tvalue(x) for x in v])
+    if isinstance(v, list):
+        return "(TList %s)" % coqio.lst([enc_tvalue(x) for x in v])
+    return "(TLeaf %s)" % coqio.z(v)
+
+
 # ---------------------------------------------------------------- Gallina literals
 def enc_value(v):
     if isinstance(v, list):
@@ -208,6 +254,15 @@ def enc_field(f):
 
 
 def enc_case(c, obs, ind):
+    if c["kind"] == "tsingle":
+        if obs[0] == "shape":
+            o = "(@ShapeError tvalue)"
+        elif obs[0] == "index":
+            o = "(@IndexErr tvalue)"
+        else:
+            o = "(@Jobs tvalue %s)" % coqio.lst([enc_tvalue(a) for a in obs[1]])
+        return "(CTup %s %s %s %s)" % (coqio.nat(c["cdx"]), coqio.lst([enc_tvalue(x) for x in c["x"]]), o,
+                                      enc_ind(ind, False))
     if c["kind"] == "nary":
         ty = "(list value)"
         if obs[0] == "shape":
@@ -232,7 +287,8 @@ Inductive case : Type :=
 | CSingle (cd : option nat) (x : list value) (obs : outcome value) (ind : option (list nat))
 | CPair (o : binop) (cdx : option nat) (x : list value) (cdy : option nat) (y : list value)
         (obs : outcome (value * value)) (ind : option (list (nat * nat)))
-| CNary (o : binop) (f0 : field) (fs : list field) (obs : outcome (list value)) (ind : option (list (list nat))).
+| CNary (o : binop) (f0 : field) (fs : list field) (obs : outcome (list value)) (ind : option (list (list nat)))
+| CTup (n : nat) (x : list tvalue) (obs : outcome tvalue) (ind : option (list nat)).
 Definition ops_of (f0 : field) (fs : list field) : list operand :=
   map (fun f => (ndim_shape (fst f), Node (snd f))) (f0 :: fs).
 Definition nn_eqb (a b : nat * nat) : bool := Nat.eqb (fst a) (fst b) && Nat.eqb (snd a) (snd b).
@@ -246,6 +302,7 @@ Definition tie_ok (c : case) : bool :=
       outcome_eqb pair_eqb' (split2 o cdx x cdy y) obs && ind_ok nn_eqb (pair_ind o cdx x cdy y) ind
   | CNary o f0 fs obs ind =>
       outcome_eqb (list_eqb value_eqb) (splitN o f0 fs) obs && ind_ok (list_eqb Nat.eqb) (nary_ind o f0 fs) ind
+  | CTup n x obs ind => outcome_eqb tvalue_eqb (tsplit1 n x) obs && ind_ok Nat.eqb (Some (tsingle_ind n x)) ind
   end.
 (* the implementation did what the property demands *)
 Definition spec_ok (c : case) : bool :=
@@ -255,6 +312,7 @@ Definition spec_ok (c : case) : bool :=
   | CPair Inner cdx x cdy y obs _ => inner_okb (ndim_shape cdx) (Node x) (ndim_shape cdy) (Node y) obs
   | CNary Outer f0 fs obs _ => outer_n_okb (ops_of f0 fs) obs
   | CNary Inner f0 fs obs _ => inner_n_okb (ops_of f0 fs) obs
+  | CTup n x obs _ => tsingle_okb n (TList x) obs
   end.
 """
 
@@ -274,7 +332,7 @@ def _classify_exc(e):
 
 
 def _splitter(c, name):
-    if c["kind"] == "single":
+    if c["kind"] in ("single", "tsingle"):
         return "%s.x" % name if name else "x"
     fx, fy = ("%s.x" % name, "%s.y" % name) if name else ("x", "y")
     return [fx, fy] if c["op"] == "Outer" else (fx, fy)
@@ -294,7 +352,7 @@ def state_run(c):
     from pydra.engine.state import State
     if c["kind"] == "nary":
         return state_run_nary(c)
-    pair = c["kind"] == "pair"
+    pair = c["kind"] == "pair"      # "single" and "tsingle" share the one-field path
     st = State(name="N", splitter=copy.deepcopy(_splitter(c, "N")), container_ndim=copy.deepcopy(_cd(c, "N")))
     inputs = {"N.x": copy.deepcopy(c["x"])}
     if pair:
@@ -481,6 +539,8 @@ def make_pair(rng, v, n, shape_kind, nested_left=True):
 
 
 def case_key(c):
+    if c["kind"] == "tsingle":
+        return json.dumps(["tsingle", t_json(c["x"]), c["cdx"]])
     if c["kind"] == "nary":
         return json.dumps(["nary", c["op"], c["fields"]])
     return json.dumps([c["kind"], c.get("op"), c["x"], c.get("cdx"), c.get("y"), c.get("cdy")])
@@ -491,6 +551,8 @@ def nontrivial(c):
         return n is not None and n >= 2 and len(elements(n, v)) >= 2
     if c["kind"] == "nary":
         return any(nt(f[1], f[0]) for f in c["fields"])
+    if c["kind"] == "tsingle":
+        return c["cdx"] >= 2 and len(telements(c["cdx"], c["x"])) >= 2
     return nt(c["x"], c.get("cdx")) or (c["kind"] == "pair" and nt(c["y"], c.get("cdy")))
 
 
@@ -505,6 +567,8 @@ def not_rect(c):
     """Finding-F04 classifier: some operand is not rectangular at its container dimension."""
     if c["kind"] == "nary":
         return any(not rectangular(f[0] or 1, f[1]) for f in c["fields"])
+    if c["kind"] == "tsingle":
+        return False        # F04's class is defined on list-only values
     bad = not rectangular(c["cdx"] or 1, c["x"])
     if c["kind"] == "pair":
         bad = bad or not rectangular(c["cdy"] or 1, c["y"])
@@ -550,6 +614,13 @@ def build_cases(ctx):
     for _ in range(ctx.budget(150, 2500)):
         v, kind = gen_depth3(rng)
         cases.append(make_nary(rng, v, rng.choice([2, 3, 3]), kind))
+    # tuples as inner containers (flatten opens them, input_shape does not), one field, State level
+    for depth in (2, 3):
+        for _ in range(ctx.budget(60, 800)):
+            v = random_uniform(rng, depth) if rng.random() < 0.6 else rect_value(
+                [rng.randint(1, 3) for _ in range(depth)])
+            x = tuplify(rng, relabel(v))
+            cases.append({"kind": "tsingle", "x": x, "cdx": rng.randint(1, depth), "shape_kind": "tuples%d" % depth})
     # container dimension 0 is outside the property (1..depth): model/implementation agreement only
     for v in ([], [1], [[1, 2], [3]], [[1], [2]]):
         cases.append({"kind": "single", "x": v, "cdx": 0, "shape_kind": "ndim0"})
@@ -558,11 +629,16 @@ def build_cases(ctx):
 
 # ---------------------------------------------------------------- the run
 def _case_json(c):
+    if c["kind"] == "tsingle":
+        return {"kind": "tsingle", "x_tjson": t_json(c["x"]), "cdx": c["cdx"]}
     return {k: c[k] for k in ("kind", "op", "x", "cdx", "y", "cdy", "fields") if k in c}
 
 
 def _terms(c):
     """Gallina terms printing the model value and the spec's reference for one case."""
+    if c["kind"] == "tsingle":
+        x = coqio.lst([enc_tvalue(v) for v in c["x"]])
+        return ["tsplit1 %s %s" % (coqio.nat(c["cdx"]), x), "telements %s (TList %s)" % (coqio.nat(c["cdx"]), x)]
     if c["kind"] == "nary":
         return ["splitN %s %s %s" % (c["op"], enc_field(c["fields"][0]),
                                     coqio.lst([enc_field(f) for f in c["fields"][1:]])),
@@ -615,7 +691,7 @@ def _failures(scratch, name, items):
 
 def run(ctx):
     cases = build_cases(ctx)
-    dist = {"single": 0, "outer": 0, "inner": 0, "nary_outer": 0, "nary_inner": 0, "rectangular": 0, "ragged": 0, "outcome_jobs": 0,
+    dist = {"single": 0, "outer": 0, "inner": 0, "nary_outer": 0, "nary_inner": 0, "single_with_tuples": 0, "rectangular": 0, "ragged": 0, "outcome_jobs": 0,
             "outcome_shape_error": 0, "outcome_index_error": 0, "outcome_other": 0, "state_level": 0, "end_to_end": 0,
             "ndim_1": 0, "ndim_2": 0, "ndim_3": 0, "ndim_default": 0, "ndim_0": 0}
     kinds = {}
@@ -638,7 +714,7 @@ def run(ctx):
         recs.append((c, "state", obs, ind))
     # --- end to end on a sample (corpus first, then a seeded sample biased to non-trivial cases)
     n_e2e = ctx.budget(70, 500)
-    cand = [c for c in cases if in_quantifier(c) and c["kind"] != "nary"]
+    cand = [c for c in cases if in_quantifier(c) and c["kind"] not in ("nary", "tsingle")]
     corpus_n = len(ctx.corpus())
     pick = cand[:corpus_n]
     rest = cand[corpus_n:]
@@ -655,8 +731,10 @@ def run(ctx):
     lits, keep = [], []
     for c, level, obs, ind in recs:
         dist["state_level" if level == "state" else "end_to_end"] += 1
-        dist[{"single": "single", "nary": "nary_" + c.get("op", "").lower()}.get(c["kind"], c.get("op", "").lower())] += 1
-        dist["ragged" if not_rect(c) else "rectangular"] += 1
+        dist[{"single": "single", "tsingle": "single_with_tuples",
+              "nary": "nary_" + c.get("op", "").lower()}.get(c["kind"], c.get("op", "").lower())] += 1
+        if c["kind"] != "tsingle":
+            dist["ragged" if not_rect(c) else "rectangular"] += 1
         for f in ("x", "y"):
             if c["kind"] != "nary" and (f == "x" or c["kind"] == "pair"):
                 n = c.get("cd" + f)
@@ -703,14 +781,16 @@ def run(ctx):
 def replay(ctx, payload):
     c = payload["case"]
     c = {k: v for k, v in c.items() if k != "level"}
+    if c["kind"] == "tsingle":
+        c["x"] = t_unjson(c.pop("x_tjson"))
     if c["kind"] != "nary":
         c.setdefault("cdy", None)
     print("case:", json.dumps(c))
     obs, ind = state_run(c)
     print("implementation (State.prepare_states): outcome=%r states_ind=%r" % (obs, ind))
     try:
-        if c["kind"] == "nary":
-            raise RuntimeError("n-ary cases are observed at State level only")
+        if c["kind"] in ("nary", "tsingle"):
+            raise RuntimeError("n-ary and tuple cases are observed at State level only")
         print("implementation (Task.split through Submitter(debug)): %r" % (e2e_run([c])[0],))
     except Exception as e:  # noqa: BLE001
         print("end-to-end run failed:", e)
